@@ -195,4 +195,142 @@ theorem movePerm_isPerm {n : Nat} {src dst : List Nat} (hnd : src.Nodup) (hlt : 
   refine ((h1.trans h2).append_right _).trans ?_
   exact List.filter_append_perm _ _
 
+/-! ### moveaxis with any number of axes: leading axes only -/
+
+/-- the order `sorted(zip(destination, source))` uses -/
+def PairLe (p q : Nat × Nat) : Prop := p.1 < q.1 ∨ (p.1 = q.1 ∧ p.2 ≤ q.2)
+
+theorem pairLe_total (p q : Nat × Nat) : PairLe p q ∨ PairLe q p := by unfold PairLe; omega
+theorem pairLe_trans {p q r : Nat × Nat} (h1 : PairLe p q) (h2 : PairLe q r) : PairLe p r := by
+  unfold PairLe at *; omega
+
+theorem insPair_sorted (p : Nat × Nat) : ∀ l : List (Nat × Nat), l.Pairwise PairLe → (insPair p l).Pairwise PairLe
+  | [], _ => by simp [insPair]
+  | q :: qs, h => by
+    unfold insPair
+    have hq := List.pairwise_cons.1 h
+    split
+    · rename_i hc
+      refine List.pairwise_cons.2 ⟨?_, h⟩
+      intro r hr
+      rcases List.mem_cons.1 hr with e | e
+      · subst e; exact hc
+      · exact pairLe_trans hc (hq.1 r e)
+    · rename_i hc
+      have hqp : PairLe q p := (pairLe_total p q).resolve_left hc
+      refine List.pairwise_cons.2 ⟨?_, insPair_sorted p qs hq.2⟩
+      intro r hr
+      rcases List.mem_cons.1 ((insPair_perm p qs).mem_iff.1 hr) with e | e
+      · subst e; exact hqp
+      · exact hq.1 r e
+
+theorem sortPairs_sorted : ∀ l : List (Nat × Nat), (sortPairs l).Pairwise PairLe
+  | [] => by simp [sortPairs]
+  | p :: ps => insPair_sorted p _ (sortPairs_sorted ps)
+
+/-- strictly increasing numbers below `L`: the first plus the count fits below `L` -/
+theorem incr_head_bound {L : Nat} : ∀ (d : Nat) (ds : List Nat), (d :: ds).Pairwise (· < ·) → (∀ x ∈ d :: ds, x < L) →
+    d + (ds.length + 1) ≤ L
+  | d, [], _, hl => by have := hl d (by simp); simp; omega
+  | d, e :: es, hp, hl => by
+    have h := List.pairwise_cons.1 hp
+    have := incr_head_bound e es h.2 (fun x hx => hl x (by simp [hx]))
+    have hde := h.1 e (by simp)
+    simp only [List.length_cons] at this ⊢
+    omega
+
+/-- every insertion position is inside the part built so far -/
+def Fits : List (Nat × Nat) → Nat → Prop
+  | [], _ => True
+  | p :: ps, len => p.1 ≤ len ∧ Fits ps (len + 1)
+
+theorem fits_of_incr {L : Nat} : ∀ (ps : List (Nat × Nat)) (len : Nat), (ps.map (·.1)).Pairwise (· < ·) →
+    (∀ p ∈ ps, p.1 < L) → len + ps.length = L → Fits ps len
+  | [], _, _, _, _ => trivial
+  | p :: ps, len, hp, hl, hlen => by
+    have hb := incr_head_bound p.1 (ps.map (·.1)) (by simpa using hp)
+      (by intro x hx
+          rcases List.mem_cons.1 hx with e | e
+          · subst e; exact hl p (by simp)
+          · obtain ⟨q, hq, rfl⟩ := List.mem_map.1 e; exact hl q (by simp [hq]))
+    simp only [List.length_map, List.length_cons] at hb hlen
+    refine ⟨by omega, fits_of_incr ps (len + 1) ?_ (fun q hq => hl q (by simp [hq])) (by omega)⟩
+    exact (List.pairwise_cons.1 (by simpa using hp)).2
+
+theorem insertIdx_append_left (x : Nat) : ∀ (A T : List Nat) (i : Nat), i ≤ A.length →
+    (A ++ T).insertIdx i x = A.insertIdx i x ++ T
+  | A, T, 0, _ => by simp
+  | [], _, i + 1, h => by simp at h
+  | a :: A, T, i + 1, h => by
+    simp only [List.cons_append, List.insertIdx_succ_cons]
+    rw [insertIdx_append_left x A T i (by simpa using h)]
+
+theorem pyInsert_append (A T : List Nat) (i x : Nat) (h : i ≤ A.length) :
+    pyInsert (A ++ T) i x = pyInsert A i x ++ T := by
+  unfold pyInsert
+  have e1 : min i (A ++ T).length = i := by rw [List.length_append]; omega
+  have e2 : min i A.length = i := by omega
+  rw [e1, e2, insertIdx_append_left x A T i h]
+
+theorem length_pyInsert (A : List Nat) (i x : Nat) : (pyInsert A i x).length = A.length + 1 := by
+  unfold pyInsert
+  rw [List.length_insertIdx, if_pos (Nat.min_le_right _ _)]
+
+theorem foldl_pyInsert_append (T : List Nat) : ∀ (ps : List (Nat × Nat)) (A : List Nat), Fits ps A.length →
+    ps.foldl (fun o p => pyInsert o p.1 p.2) (A ++ T) = ps.foldl (fun o p => pyInsert o p.1 p.2) A ++ T
+  | [], _, _ => rfl
+  | p :: ps, A, hf => by
+    simp only [List.foldl_cons]
+    rw [pyInsert_append A T p.1 p.2 hf.1]
+    exact foldl_pyInsert_append T ps _ (by rw [length_pyInsert]; exact hf.2)
+
+/-- called with LEADING source and destination axes on an array over `shape ++ item` (`L` leading, `m` item
+    axes), `numpy.moveaxis` builds an order that permutes the leading axes and leaves the item axes in place —
+    for ANY number of axes moved at once -/
+theorem movePerm_lead {L : Nat} (m : Nat) {src dst : List Nat} (hsn : src.Nodup) (hdn : dst.Nodup)
+    (hs : ∀ x ∈ src, x < L) (hd : ∀ x ∈ dst, x < L) (hlen : dst.length = src.length) :
+    movePerm (L + m) src dst = movePerm L src dst ++ tailAxes L m := by
+  unfold movePerm
+  have hfil : (List.range (L + m)).filter (fun k => !src.contains k)
+      = (List.range L).filter (fun k => !src.contains k) ++ tailAxes L m := by
+    rw [List.range_add, List.filter_append]
+    congr 1
+    apply List.filter_eq_self.2
+    intro x hx
+    obtain ⟨y, _, rfl⟩ := List.mem_map.1 hx
+    have : L + y ∉ src := fun h => by have := hs _ h; omega
+    simpa using this
+  rw [hfil]
+  apply foldl_pyInsert_append
+  -- the sorted pairs have strictly increasing destinations, all below L
+  have hperm := sortPairs_perm (dst.zip src)
+  have hfst : ((sortPairs (dst.zip src)).map (·.1)).Perm dst := by
+    refine (hperm.map _).trans ?_
+    rw [List.map_fst_zip (by omega)]
+  have hnd : ((sortPairs (dst.zip src)).map (·.1)).Nodup := hfst.nodup_iff.2 hdn
+  have hsorted := sortPairs_sorted (dst.zip src)
+  have hincr : ((sortPairs (dst.zip src)).map (·.1)).Pairwise (· < ·) := by
+    rw [List.pairwise_map]
+    have hne : (sortPairs (dst.zip src)).Pairwise (fun p q => p.1 ≠ q.1) := by
+      have := hnd; unfold List.Nodup at this; rwa [List.pairwise_map] at this
+    refine (hsorted.and hne).imp ?_
+    intro p q ⟨hle, hn⟩
+    unfold PairLe at hle; omega
+  apply fits_of_incr (L := L) _ _ hincr
+  · intro p hp
+    have : p.1 ∈ (sortPairs (dst.zip src)).map (·.1) := List.mem_map.2 ⟨p, hp, rfl⟩
+    exact hd _ (hfst.mem_iff.1 this)
+  · -- L - k remaining axes plus k pairs
+    have hk : (sortPairs (dst.zip src)).length = src.length := by
+      rw [hperm.length_eq, List.length_zip]; omega
+    have hpart := List.filter_append_perm (fun k => src.contains k) (List.range L)
+    have h2 : src.Perm ((List.range L).filter fun k => src.contains k) := by
+      rw [List.perm_ext_iff_of_nodup hsn (List.nodup_range.filter _)]
+      intro a
+      simp only [List.mem_filter, List.mem_range, List.contains_iff_mem]
+      exact ⟨fun h => ⟨hs a h, h⟩, fun h => h.2⟩
+    have := hpart.length_eq
+    rw [List.length_append, ← h2.length_eq, List.length_range] at this
+    rw [hk]; omega
+
 end PMV.NpShape
